@@ -116,6 +116,54 @@ type bothVerifier interface {
 // build constructs a verifier with an OCI policy (mode 0), a blob policy
 // (mode 1) or both (mode 2: the long-lived verifier of a history).
 func (w *world) build(c cfg, mode int) (bothVerifier, *instr, error) {
+	var oci []cfg
+	var blob *cfg
+	if mode >= 1 {
+		blob = &c
+	}
+	if mode != 1 {
+		oci = []cfg{c}
+	}
+	return w.buildNS(oci, blob)
+}
+
+const (
+	secondScope = "reg.example/other"
+	secondRef   = "reg.example/other@sha256:9834876dcfb05cb167a5c24953eba58c4ac89b1adf57f28f2f9d09af107ee8f0"
+)
+
+// stmtParts: the content of a policy statement for configuration c.
+func stmtParts(c cfg) (ov map[trustpolicy.ValidationType]trustpolicy.ValidationAction, stores, ids []string) {
+	ids = []string{"*"}
+	if c.Ident == 1 {
+		ids = []string{"x509.subject: CN=nobody,O=Nowhere,C=US,ST=WA"}
+	}
+	stores = []string{"ca:s"}
+	if c.Level == "skip" {
+		ids, stores = nil, nil
+	}
+	if len(c.Override) > 0 {
+		ov = map[trustpolicy.ValidationType]trustpolicy.ValidationAction{}
+		for k, v := range c.Override {
+			ov[trustpolicy.ValidationType(k)] = trustpolicy.ValidationAction(v)
+		}
+	}
+	return
+}
+
+// buildNS constructs ONE verifier whose OCI document has one statement per
+// element of oci (the first named "p" for TestScope, the second named "q" for
+// secondScope) and whose blob document, if any, has a statement that is ALSO
+// named "p" but has the content of *blob. Trust store content, revocation
+// validator and plugin manager (properties of the verifier, not of a
+// statement) are taken from the first configuration given.
+func (w *world) buildNS(oci []cfg, blob *cfg) (bothVerifier, *instr, error) {
+	var c cfg
+	if len(oci) > 0 {
+		c = oci[0]
+	} else {
+		c = *blob
+	}
 	in := &instr{store: NewMockStore(), rev: &c01Rev{fail: c.Rev == 1}}
 	k := StoreKey{Type: truststore.TypeCA, Name: "s"}
 	switch c.Store {
@@ -128,31 +176,23 @@ func (w *world) build(c cfg, mode int) (bothVerifier, *instr, error) {
 	case 3:
 		in.store.Fail[k] = true
 	}
-	ids := []string{"*"}
-	if c.Ident == 1 {
-		ids = []string{"x509.subject: CN=nobody,O=Nowhere,C=US,ST=WA"}
-	}
-	stores := []string{"ca:s"}
-	if c.Level == "skip" {
-		ids, stores = nil, nil
-	}
-	var ov map[trustpolicy.ValidationType]trustpolicy.ValidationAction
-	if len(c.Override) > 0 {
-		ov = map[trustpolicy.ValidationType]trustpolicy.ValidationAction{}
-		for k, v := range c.Override {
-			ov[trustpolicy.ValidationType(k)] = trustpolicy.ValidationAction(v)
-		}
-	}
 	opts := verifier.VerifierOptions{RevocationCodeSigningValidator: in.rev}
-	if mode >= 1 {
-		opts.BlobTrustPolicy = &trustpolicy.BlobDocument{Version: "1.0", TrustPolicies: []trustpolicy.BlobTrustPolicy{{
-			Name:                  blobPolicyName,
-			SignatureVerification: trustpolicy.SignatureVerification{VerificationLevel: c.Level, Override: ov},
-			TrustStores:           stores, TrustedIdentities: ids,
-		}}}
+	if blob != nil {
+		ov, stores, ids := stmtParts(*blob)
+		opts.BlobTrustPolicy = blobDoc(blob.Level, ov, stores, ids)
 	}
-	if mode != 1 {
-		opts.OCITrustPolicy = OCIPolicy(c.Level, ov, stores, ids, "")
+	if len(oci) > 0 {
+		ov, stores, ids := stmtParts(oci[0])
+		doc := OCIPolicy(oci[0].Level, ov, stores, ids, "")
+		if len(oci) > 1 {
+			ov, stores, ids := stmtParts(oci[1])
+			doc.TrustPolicies = append(doc.TrustPolicies, trustpolicy.OCITrustPolicy{
+				Name: "q", RegistryScopes: []string{secondScope},
+				SignatureVerification: trustpolicy.SignatureVerification{VerificationLevel: oci[1].Level, Override: ov},
+				TrustStores:           stores, TrustedIdentities: ids,
+			})
+		}
+		opts.OCITrustPolicy = doc
 	}
 	if c.PM != 0 {
 		in.pm = &MockManager{Plugins: map[string]*MockPlugin{}}
@@ -268,6 +308,7 @@ type kase struct {
 	ObsTouched bool   `json:"obs_touched"`
 	ObsMsg     string `json:"obs_error_text,omitempty"`
 	SharedMd   bool   `json:"metadata_map_shared_with_earlier_calls,omitempty"`
+	Ref        string `json:"artifact_reference,omitempty"` // "" = TestRef
 	Via        string `json:"via,omitempty"`
 
 	mdObj map[string]string // the caller's map object handed to the call (Md = what the caller put into it)
@@ -452,6 +493,31 @@ func (r *runner) run(k *kase) { r.exec(k, nil) }
 // step, so that nothing else happens in the process between two steps. In a
 // replay of one step the steps before it are executed too.
 func (r *runner) history(name string, c cfg, steps []*kase) {
+	for _, k := range steps {
+		k.Cfg = c
+	}
+	r.historyOn(name, func() (bothVerifier, *instr, error) { return r.w.build(c, 2) }, steps)
+}
+
+// historyNS: as history, on ONE verifier that holds an OCI statement "p" (and
+// possibly "q" for a second scope) and a blob statement that is also named "p"
+// but differs in content. A step is judged on the statement that applies to
+// its own entry point and reference.
+func (r *runner) historyNS(name string, oci []cfg, blob *cfg, steps []*kase) {
+	for _, k := range steps {
+		switch {
+		case k.Kind != "oci":
+			k.Cfg = *blob
+		case k.Ref == secondRef:
+			k.Cfg = oci[1]
+		default:
+			k.Cfg = oci[0]
+		}
+	}
+	r.historyOn(name, func() (bothVerifier, *instr, error) { return r.w.buildNS(oci, blob) }, steps)
+}
+
+func (r *runner) historyOn(name string, mk func() (bothVerifier, *instr, error), steps []*kase) {
 	first := r.id
 	want := false
 	for j := range steps {
@@ -467,12 +533,12 @@ func (r *runner) history(name string, c cfg, steps []*kase) {
 		}
 		return
 	}
-	v, in, err := r.w.build(c, 2)
+	v, in, err := mk()
 	if err != nil {
 		panic(fmt.Sprintf("c01: history %s: %v", name, err))
 	}
 	for j, k := range steps {
-		k.Cfg = c
+		c := k.Cfg
 		k.Family = "history"
 		k.History = fmt.Sprintf("%s step %d/%d", name, j+1, len(steps))
 		if k.Env.facts.intact() {
@@ -694,7 +760,11 @@ func (r *runner) exec(k *kase, sh *shared) {
 				annObj := copyMap(k.Desc.Ann)
 				fr.add("descriptor annotations", annObj)
 				d := ocispec.Descriptor{MediaType: k.Desc.MT, Digest: digest.Digest(k.Desc.Dg), Size: k.Desc.Sz, Annotations: annObj}
-				out, err = v.Verify(ctx, d, e.bytes, notation.VerifierVerifyOptions{ArtifactReference: TestRef, SignatureMediaType: e.Format, UserMetadata: passMd, PluginConfig: pcfg})
+				ref := TestRef
+				if k.Ref != "" {
+					ref = k.Ref
+				}
+				out, err = v.Verify(ctx, d, e.bytes, notation.VerifierVerifyOptions{ArtifactReference: ref, SignatureMediaType: e.Format, UserMetadata: passMd, PluginConfig: pcfg})
 			}
 			errTerm = classify(err, out)
 		case "blob":
@@ -1772,6 +1842,61 @@ func runC01(a *Args) error {
 			for _, l := range lists {
 				hi++
 				r.listing(l.name, goodCfg(rng, hi%24), l.envs, l.md)
+			}
+			// the same statement NAME in two namespaces (OCI document / blob document) or two OCI
+			// statements, with different levels, identities or overrides; entry points alternate
+			{
+				strict := cfg{Level: "strict", Store: 1}
+				skip := cfg{Level: "skip", Store: 1}
+				lax := cfg{Level: "audit", Override: map[string]string{"revocation": "skip"}, Store: 1}
+				nobody := cfg{Level: "strict", Store: 1, Ident: 1}
+				permNobody := cfg{Level: "permissive", Override: map[string]string{"authenticity": "log"}, Store: 1, Ident: 1}
+				pairs := []struct {
+					name string
+					a, b cfg
+				}{
+					{"strict|skip", strict, skip}, {"skip|strict", skip, strict}, {"audit-revocation-skipped|strict", lax, strict},
+					{"strict|identity-nobody", strict, nobody}, {"identity-nobody|strict", nobody, strict},
+					{"identity-nobody-logged|identity-nobody", permNobody, nobody}, {"skip|identity-nobody", skip, nobody},
+				}
+				inputs := []struct {
+					name string
+					e    *envelope
+					d    tgt
+					md   map[string]string
+					what string
+				}{
+					{"tampered", T, eqD, nil, "equal"},
+					{"lacks-required-metadata", B, eqD, k1, "equal"},
+					{"other-artifact", A, badD, nil, "digest"},
+					{"good", A, eqD, k1, "equal"},
+				}
+				patterns := [][]int{{0, 1}, {1, 0}, {0, 1, 0}, {1, 0, 1}}
+				for pi, p := range pairs {
+					for ii, in := range inputs {
+						for qi, pat := range patterns {
+							if !thorough && (pi+ii+qi)%2 == 1 && ii != 0 {
+								continue
+							}
+							// namespaces: 0 = Verify under OCI statement "p", 1 = VerifyBlob under blob statement "p"
+							var ns, two []*kase
+							for _, side := range pat {
+								ns = append(ns, step(in.e, []string{"oci", "blob"}[side], in.what, in.d, in.md))
+								k := step(in.e, "oci", in.what, in.d, in.md)
+								if side == 1 {
+									k.Ref = secondRef
+								}
+								two = append(two, k)
+							}
+							tag := fmt.Sprintf("%s/%s/%v", p.name, in.name, pat)
+							pb := p.b
+							r.historyNS("same-name-oci-and-blob/"+tag, []cfg{p.a}, &pb, ns)
+							if qi%2 == ii%2 {
+								r.historyNS("two-oci-statements/"+tag, []cfg{p.a, p.b}, nil, two)
+							}
+						}
+					}
+				}
 			}
 			// notation.VerifyBlob: the blob decides, call by call
 			hi++
